@@ -230,6 +230,10 @@ func (vc *VC) copyRange(st *State, et types.Type, dreg, doff, sreg, soff, n stri
 		vc.define(fmt.Sprintf("(forall ((i Int)) (! (= (select %s i) (ite (and (<= %s i) (< i (+ %s %s))) (select %s (+ %s (- i %s))) (select %s i))) :pattern ((select %s i))))",
 			na, doff, doff, n, src, soff, doff, old, na))
 		vc.heapSet(st, nm, arr2Sort(sorts[i]), Sto(h, dreg, na))
+		if nm == byteHeap && vc.axiomSet["sum16_inj"] {
+			// copying a whole checksum copies its id (saves the solver sixteen instantiations of the copy axiom)
+			vc.define(Imp(Eq(n, "16"), Eq(app("sid16", st.heap[nm], dreg, doff), app("sid16", h, sreg, soff))))
+		}
 	}
 }
 
